@@ -185,7 +185,14 @@ fn uppercase(cu: u32) -> u32 {
         } else {
             TO_UPPERCASE.get(index).expect("Invalid index")
         };
-        fr.apply(cu)
+        let upper = fr.apply(cu);
+        // Canonicalize: a non-ASCII character does not map to an ASCII one
+        // (U+017F is not 'S', U+0131 is not 'I').
+        if cu >= 128 && upper < 128 {
+            cu
+        } else {
+            upper
+        }
     } else {
         cu
     }
@@ -311,8 +318,7 @@ pub(crate) fn unfold_uppercase_char(c: u32) -> Vec<u32> {
             continue;
         }
         for cp in tr.transformed_from().codepoints() {
-            let tcp = tr.apply(cp);
-            if tcp == fcp {
+            if uppercase(cp) == fcp {
                 res.push(cp);
             }
         }
